@@ -16,10 +16,12 @@ from . import analysis
 rule("C16.a", "ScaledAsset: one new column / bound / cost / mapping row for the scale variable; scaling row blocks, zeros and "
               "letters have one width", floor=4)
 rule("C16.b", "ScaledAsset: norm_scale only divides; the scale column is the negated base right-hand side / bound", floor=4)
+rule("C16.c", "ScaledAsset: the scale column of a block of bound rows is the base asset's bound as it was before the bounds were "
+              "rescaled in place (the retained copy), and the upper / lower rows take the upper / lower bound", floor=2)
 rule("C16.g", "an identity block over a subset of the variables is not stacked under a matrix over all variables", floor=1)
 
 
-@analysis("scaled", ["C16.a", "C16.b", "C16.g"])
+@analysis("scaled", ["C16.a", "C16.b", "C16.c", "C16.g"])
 def run(ctx):
     p = ctx.p
     fn = p.cls("ScaledAsset").methods.get("setup_optim_problem")
@@ -83,6 +85,54 @@ def run(ctx):
         neg = au.sign_of(n.args[0]) < 0
         ctx.ob("C16.b", fn, "scale column %s" % au.short(n, 50), neg,
                "rows A x <= b become A x - b s/S <= 0: the scale column carries the *negated* right-hand side / bound", node=n)
+    # ---------------------------------------------------------------- C16.c
+    ff = ctx.flow(fn)
+
+    def overwritten(attr_node, at):
+        """in-place stores `<obj>.<attr>[..] = ..` that reach `at`."""
+        base = au.base_name(attr_node)
+        pth = au.path(attr_node)
+        return [d for d in ff.defs(base, at) if d.kind == "store" and isinstance(d.index, str) and d.index.startswith(pth + "[")]
+
+    for st, eye, bz, ct in blocks:
+        letter = None
+        if ct:
+            ls = {x.value for x in au.walk_local(ct[0].value)
+                  if isinstance(x, ast.Constant) and isinstance(x.value, str) and x.value in ("U", "L")}
+            letter = next(iter(ls)) if len(ls) == 1 else None
+        col = [x for x in au.walk_local(st.value) if isinstance(x, ast.Call) and au.method_name(x) == "reshape" and x.args]
+        if not col or letter is None:
+            ctx.ob("C16.c", fn, "scale column of %s" % au.short(st, 50), None, "scale column / row type of the block not recognised", node=st)
+            continue
+        srcs = []       # (bound attr, stale stores, node)
+        for x in au.walk_local(col[0].args[0]):
+            if isinstance(x, ast.Attribute) and x.attr in ("l", "u") and au.base_name(x) not in (None, "self", "np"):
+                srcs.append((x.attr, overwritten(x, st), x))
+            elif isinstance(x, ast.Name) and isinstance(x.ctx, ast.Load):
+                for d in ff.defs(x.id, st):
+                    v = d.value
+                    if d.kind != "assign" or v is None:
+                        continue
+                    if isinstance(v, ast.Call) and au.method_name(v) in ("copy", "deepcopy", "array"):
+                        v = v.func.value if (isinstance(v.func, ast.Attribute) and au.method_name(v) == "copy") else (v.args[0] if v.args else v)
+                    if isinstance(v, ast.Attribute) and v.attr in ("l", "u") and au.base_name(v) not in (None, "self", "np"):
+                        srcs.append((v.attr, overwritten(v, d.node), x))
+        if not srcs:
+            ctx.ob("C16.c", fn, "scale column of the '%s' rows" % letter, None, "the bound the scale column is built from was not recognised: %s"
+                   % au.short(col[0].args[0], 60), node=col[0])
+            continue
+        stale = [(a, sd, x) for a, sd, x in srcs if sd]
+        wrong = [(a, sd, x) for a, sd, x in srcs if a != letter.lower()]
+        detail = ""
+        if stale:
+            detail = "%s is read after it was overwritten in place (line %s: the bound times max_scale / norm_scale, clipped at 0): the row " \
+                     "x >= / <= bound * s / norm_scale then uses the rescaled bound instead of the base asset's bound, so a fixed scale no " \
+                     "longer reproduces the base asset with capacities times s / norm_scale" % (
+                         au.short(stale[0][2], 30), ", ".join(str(d.node.lineno) for d in stale[0][1]))
+        elif wrong:
+            detail = "the '%s' rows couple the dispatch to the scale through the base asset's *%s* bound" % (letter, "upper" if wrong[0][0] == "u" else "lower")
+        ctx.ob("C16.c", fn, "scale column of the '%s' rows" % letter, not stale and not wrong, detail, node=col[0],
+               ok_detail="base bound .%s as retained before the in-place rescaling" % letter.lower())
     # ---------------------------------------------------------------- C16.g
     org = ctx.origins(fn, values_only=False)
     for st, eye, bz, ct in blocks:
